@@ -130,6 +130,8 @@ class World(object):
         self.compiling = {}       # out path -> set of cc actor names writing it
         self.cc_failed_for = set()
         self.cc_outputs = {}      # cc actor -> output path while it is writing
+        self.io_faults = [dict(f) for f in cfg.get("io_faults", [])]
+        self.io_failed_for = set()
         self.pending_kills = [dict(k) for k in cfg.get("kills", [])]
         self.label_counts = {}
         self._ev_pos = 0
@@ -153,6 +155,20 @@ class World(object):
     def violation(self, inv, actor, detail):
         self.violations.append({"inv": inv, "actor": actor, "detail": detail,
                                 "step": self.sched.step if self.sched else -1})
+
+    def io_fault(self, kind):
+        """A failing system call (disk full) scheduled for the running process?"""
+        me = self.sched.current() if self.sched else None
+        if me is None:
+            return False
+        for f in self.io_faults:
+            if f["kind"] == kind and f["target"] == me.name:
+                self.io_faults.remove(f)
+                self.io_failed_for.add(me.name)
+                self.fired[kind] = self.fired.get(kind, 0) + 1
+                self.sched.note("fault:" + kind)
+                return True
+        return False
 
     # -- seam callbacks ----------------------------------------------------------
     def on_exists(self, path, result):
@@ -521,8 +537,13 @@ def run_one(cfg, decisions=None, keep_events=False):
             if a.exc is not None:
                 exempt = (a.name in world.cc_failed_for and a.exc[0] == "RuntimeError"
                           and "compile failed" in a.exc[1])
-                if exempt:
+                if a.name in world.io_failed_for and a.exc[0] == "OSError" and "No space left" in a.exc[1]:
+                    exempt = True      # the process whose own system call failed may report it
+                    world.probe("own_io_failure_reported")
+                elif exempt:
                     world.probe("own_compile_failure_reported")
+                if exempt:
+                    pass
                 else:
                     world.violation(inv, a.name, "process failed: %s: %s" %
                                     (a.exc[0], world.canon(a.exc[1])[:300]))
@@ -638,11 +659,15 @@ def gen_config(run_seed, tier):
            "cc_plans": plans, "kills": [], "fresh": "auto"}
     # ---- faults: a swarm-style subset; one third of runs are fault-free ----
     if f.random() < 0.67:
-        enabled = [k for k in ("kill_group", "kill_parent", "cc_fail") if f.random() < 0.6] \
+        enabled = [k for k in ("kill_group", "kill_parent", "cc_fail", "io_fail") if f.random() < 0.6] \
             or [f.choice(["kill_group", "kill_parent", "cc_fail"])]
         for _ in range(f.choice([1, 1, 2])):
             kind = f.choice(enabled)
-            if kind == "cc_fail":
+            if kind == "io_fail":
+                cfg.setdefault("io_faults", []).append(
+                    {"target": "P%d" % f.randrange(n),
+                     "kind": f.choice(["enospc_source_write", "enospc_mkdtemp"])})
+            elif kind == "cc_fail":
                 idx = f.randrange(0, min(n, 3))
                 k = len(plans[idx]["cuts"]) + 1
                 plans[idx]["fail"] = {"after": f.randint(0, k), "how": f.choice(["clean", "killed", "killed"])}
@@ -715,11 +740,16 @@ def shrink_candidates(cfg, decisions):
             c = copy.deepcopy(cfg)
             c["actors"] = [a for a in c["actors"] if a["name"] != nm]
             c["kills"] = [k for k in c["kills"] if k["target"] != nm]
+            c["io_faults"] = [k for k in c.get("io_faults", []) if k["target"] != nm]
             yield c, [d for d in decisions if d != nm]
     # drop a fault
     for i in range(len(cfg["kills"])):
         c = copy.deepcopy(cfg)
         del c["kills"][i]
+        yield c, decisions
+    for i in range(len(cfg.get("io_faults", []))):
+        c = copy.deepcopy(cfg)
+        del c["io_faults"][i]
         yield c, decisions
     for i, p in enumerate(cfg["cc_plans"]):
         if p.get("fail"):
@@ -754,6 +784,7 @@ def sample_of(cfg, res):
     return {"actors": [[a["name"], a["loads"], a.get("start_at", 0)] for a in cfg["actors"]],
             "policy": cfg["policy"]["kind"], "kills": cfg["kills"],
             "cc_fail": [p["fail"] for p in cfg["cc_plans"] if p.get("fail")],
+            "io_faults": cfg.get("io_faults", []),
             "steps": res["steps"], "switches": res["switches"],
             "fired": res["fired"], "violations": len(res["violations"])}
 
@@ -791,7 +822,7 @@ EXPECTED_PROBES = [
     "lookup_during_foreign_compile", "load_during_foreign_compile", "two_compilers_same_library",
     "kill_before_output", "kill_after_partial", "kill_after_full_output", "kill_after_source_unlink",
     "orphan_compiler_running", "compiler_failed_with_partial_output", "cache_hit",
-    "own_compile_failure_reported",
+    "own_compile_failure_reported", "own_io_failure_reported",
 ]
 
 
